@@ -215,7 +215,12 @@ def declOk (s : Sig N V T) (o : Opts) : Bool :=
   !(s.vk.isNone && o.userAddition == some true)
 
 def parseAddition (W : World N V T) (s : Sig N V T) (o : Opts) (k : N) (v : V) : Except Err (Option V) :=
-  if (s.excludeVars W).contains k then .ok none                   -- excluded vars are never carried
+  if (s.excludeVars W).contains k then
+    -- excluded vars are never carried; where unknown keys are refused (addition=False, implied by no_data_loss) they
+    -- are refused too instead of being dropped silently (func.py:604-610, base.py:411-418)
+    match effAddition s o with
+    | .deny => .error .perr                                       -- ExceedError
+    | _ => .ok none
   else match effAddition s o with
     | .drop => .ok none                                           -- dropped silently
     | .deny => .error .perr                                       -- ExceedError
